@@ -690,6 +690,8 @@ func Build(c *Case) (*Built, error) {
 				g.GlyphClass[gid] = gdef.GlyphClassLigature
 			case "mark":
 				g.GlyphClass[gid] = gdef.GlyphClassMark
+			case "comp":
+				g.GlyphClass[gid] = gdef.GlyphClassComponent
 			}
 		}
 		for _, p := range c.Gdef.Att {
